@@ -1,5 +1,1639 @@
-use crate::Ctx;
+//! C15 - a recorded demo plays back what was recorded.
+//!
+//! Raw level: generated header + chunk sequences are written with `libtw2_demo::Writer` into an
+//! in-memory buffer and read back with `libtw2_demo::Reader`; the oracle is the input itself
+//! (messages zero-padded to a multiple of four), the header fields and an empty warning sink.
+//! Typed level: a world of ddnet snap objects evolves over ticks, is written with
+//! `ddnet::DemoWriter` (key frames + deltas) and read back with `ddnet::DemoReader`; the oracle is
+//! the per-tick object set of the model world. Non-increasing ticks must be refused with
+//! `TooLowTickNumber` and the recording must still read back completely.
 
-pub fn run(_ctx: &Ctx) {
-    // not built yet
+use crate::util::{hex, Warnings};
+use crate::{ensure, ensure_eq, guard_s, pick, Ctx, Outcome, PResult};
+use arrayvec::ArrayVec;
+use libtw2_common::digest::Sha256;
+use libtw2_demo::ddnet::{Chunk, DemoReader, DemoWriter};
+use libtw2_demo::{DemoKind, RawChunk, Reader, Writer};
+use libtw2_gamenet_ddnet::msg::game as gmsg;
+use libtw2_gamenet_ddnet::msg::Game;
+use libtw2_gamenet_ddnet::snap_obj::{self, SnapObj, TypeId};
+use libtw2_gamenet_ddnet::Protocol;
+use libtw2_huffman::instances::TEEWORLDS as HUFFMAN;
+use libtw2_packer::{with_packer, IntUnpacker, Unpacker};
+use proptest::prelude::*;
+use serde::{Deserialize, Serialize};
+use serde_json::json;
+use std::cell::RefCell;
+use std::collections::BTreeMap;
+use std::io::{self, Cursor, Seek, SeekFrom, Write};
+use std::rc::Rc;
+use std::sync::atomic::{AtomicU64, Ordering};
+use std::sync::OnceLock;
+
+/// Largest payload the format can carry uncompressed (demo/src/format.rs MAX_SNAPSHOT_SIZE).
+const MAXP: usize = 65536;
+/// Largest compressed size the 16-bit size field can carry.
+const MAXC: usize = 65535;
+
+const KEY_EQUAL_TICK: &str = "equal-tick-panics";
+const KEY_DUP_LEAK: &str = "failed-snap-leaks-items";
+const KEY_UUID_IDS: &str = "uuid-type-id-reuse-panics";
+
+// ---------------------------------------------------------------------------
+// In-memory file shared between the harness and the writer
+
+#[derive(Clone)]
+struct Shared(Rc<RefCell<Cursor<Vec<u8>>>>);
+
+impl Shared {
+    fn new() -> Shared {
+        Shared(Rc::new(RefCell::new(Cursor::new(Vec::new()))))
+    }
+    fn len(&self) -> usize {
+        self.0.borrow().get_ref().len()
+    }
+    fn bytes(&self) -> Vec<u8> {
+        self.0.borrow().get_ref().clone()
+    }
+}
+
+impl Write for Shared {
+    fn write(&mut self, buf: &[u8]) -> io::Result<usize> {
+        self.0.borrow_mut().write(buf)
+    }
+    fn flush(&mut self) -> io::Result<()> {
+        Ok(())
+    }
+}
+
+impl Seek for Shared {
+    fn seek(&mut self, pos: SeekFrom) -> io::Result<u64> {
+        self.0.borrow_mut().seek(pos)
+    }
+}
+
+// ---------------------------------------------------------------------------
+// Independent helpers (doc/int.md, doc/demo.md)
+
+fn varint(v: i32, out: &mut Vec<u8>) {
+    let sign = v < 0;
+    let mut bits: u32 = if sign { !(v as u32) } else { v as u32 };
+    let mut b = (bits & 0x3f) as u8 | if sign { 0x40 } else { 0 };
+    bits >>= 6;
+    while bits != 0 {
+        out.push(b | 0x80);
+        b = (bits & 0x7f) as u8;
+        bits >>= 7;
+    }
+    out.push(b);
+}
+
+/// What a message turns into before Huffman compression: 4-byte little-endian groups (the last
+/// one zero-padded) as variable-length integers.
+fn pack_message(msg: &[u8]) -> Vec<u8> {
+    let mut out = Vec::with_capacity(msg.len() + msg.len() / 4 + 4);
+    for g in msg.chunks(4) {
+        let mut w = [0u8; 4];
+        w[..g.len()].copy_from_slice(g);
+        varint(i32::from_le_bytes(w), &mut out);
+    }
+    out
+}
+
+fn pad4(msg: &[u8]) -> Vec<u8> {
+    let mut v = msg.to_vec();
+    while v.len() % 4 != 0 {
+        v.push(0);
+    }
+    v
+}
+
+/// Predicted size of the chunk data on disk (generator aim + classification only).
+fn predicted_clen(data: &[u8], is_msg: bool) -> usize {
+    if is_msg {
+        let p = pack_message(data);
+        if p.len() > MAXP {
+            return usize::MAX;
+        }
+        HUFFMAN.compressed_len(&p)
+    } else {
+        HUFFMAN.compressed_len(data)
+    }
+}
+
+fn fits(data: &[u8], is_msg: bool) -> bool {
+    data.len() <= MAXP && predicted_clen(data, is_msg) <= MAXC
+}
+
+// ---------------------------------------------------------------------------
+// Case types
+
+#[derive(Clone, Debug, Hash, Serialize, Deserialize)]
+pub struct HeaderSpec {
+    pub net_version: Vec<u8>,
+    pub map_name: Vec<u8>,
+    pub timestamp: Vec<u8>,
+    pub sha256: Option<[u8; 32]>,
+    pub crc: u32,
+    pub server: bool,
+    pub length: i32,
+    pub map_len: u16,
+    pub map_seed: u32,
+}
+
+#[derive(Clone, Copy, Debug, Hash, Serialize, Deserialize, PartialEq)]
+pub enum Fit {
+    /// take `len` bytes of the stream
+    None,
+    /// grow the payload until its compressed size is exactly this
+    Compressed(u16),
+    /// as long as the format can carry
+    Max,
+}
+
+#[derive(Clone, Debug, Hash, Serialize, Deserialize)]
+pub struct PayloadSpec {
+    pub head: Vec<u8>,
+    pub fill: u8,
+    pub seed: u32,
+    pub len: u32,
+    pub fit: Fit,
+}
+
+#[derive(Clone, Debug, Hash, Serialize, Deserialize)]
+pub enum RChunk {
+    Tick { gap: u32, keyframe: bool },
+    Snapshot(PayloadSpec),
+    Delta(PayloadSpec),
+    Message(PayloadSpec),
+}
+
+#[derive(Clone, Debug, Hash, Serialize, Deserialize)]
+pub struct RawCase {
+    pub header: HeaderSpec,
+    pub start_tick: i32,
+    pub chunks: Vec<RChunk>,
+    pub via_chunk_api: bool,
+}
+
+// ---------------------------------------------------------------------------
+// Payload expansion
+
+struct Stream<'a> {
+    head: &'a [u8],
+    fill: u8,
+    state: u32,
+    pos: usize,
+}
+
+const ALPHA: &[u8] = b"etaoin shrdlu\x00\x01\x02ETA0123";
+
+impl<'a> Stream<'a> {
+    fn new(spec: &'a PayloadSpec) -> Stream<'a> {
+        Stream {
+            head: &spec.head,
+            fill: spec.fill % 6,
+            state: if spec.seed == 0 { 0x9E37_79B9 } else { spec.seed },
+            pos: 0,
+        }
+    }
+    fn rnd(&mut self) -> u32 {
+        let mut x = self.state;
+        x ^= x << 13;
+        x ^= x >> 17;
+        x ^= x << 5;
+        self.state = x;
+        x
+    }
+    fn next(&mut self) -> u8 {
+        let p = self.pos;
+        self.pos += 1;
+        if p < self.head.len() {
+            return self.head[p];
+        }
+        match self.fill {
+            0 => 0,
+            1 => 0xff,
+            2 => (self.rnd() >> 11) as u8,
+            3 => {
+                let r = self.rnd() >> 9;
+                ALPHA[r as usize % ALPHA.len()]
+            }
+            4 => {
+                if self.head.is_empty() {
+                    0
+                } else {
+                    self.head[p % self.head.len()]
+                }
+            }
+            _ => {
+                if p % 4 == 0 {
+                    (self.rnd() >> 13) as u8 & 0x3f
+                } else {
+                    0
+                }
+            }
+        }
+    }
+    fn take(&mut self, n: usize) -> Vec<u8> {
+        (0..n).map(|_| self.next()).collect()
+    }
+}
+
+/// Returns the payload and whether it had to be cut to stay inside what the writer accepts.
+fn expand(spec: &PayloadSpec, is_msg: bool) -> (Vec<u8>, bool) {
+    let clen = |b: &[u8]| predicted_clen(b, is_msg);
+    let mut s = Stream::new(spec);
+    match spec.fit {
+        Fit::None => {
+            let n = (spec.len as usize).min(MAXP);
+            let mut v = s.take(n);
+            let mut trimmed = false;
+            while !fits(&v, is_msg) {
+                let n = v.len() * 7 / 8;
+                v.truncate(n);
+                trimmed = true;
+            }
+            (v, trimmed)
+        }
+        Fit::Compressed(t) => {
+            const NMAX: usize = 16384;
+            let t = (t as usize).clamp(1, 1500);
+            let full = s.take(NMAX);
+            // smallest prefix whose compressed size reaches t (exact for snapshots, a good
+            // starting point for messages whose size is not monotone in the prefix)
+            let (mut lo, mut hi) = (0usize, NMAX);
+            while lo < hi {
+                let mid = (lo + hi) / 2;
+                if clen(&full[..mid]) >= t {
+                    hi = mid;
+                } else {
+                    lo = mid + 1;
+                }
+            }
+            let start = lo.saturating_sub(8) & !3;
+            let mut v = full[..start].to_vec();
+            let mut i = start;
+            let mut steps = 0;
+            while clen(&v) < t && steps < 256 {
+                let b = if i < NMAX { full[i] } else { 0 };
+                i += 1;
+                steps += 1;
+                v.push(b);
+                if clen(&v) > t {
+                    *v.last_mut().unwrap() = 0;
+                    if clen(&v) > t {
+                        v.pop();
+                        break;
+                    }
+                }
+            }
+            if is_msg {
+                // vary the length modulo four without changing the size on disk
+                let want = spec.len as usize % 4;
+                let c = clen(&v);
+                let mut extra = 0;
+                while v.len() % 4 != want && extra < 4 {
+                    v.push(0);
+                    extra += 1;
+                    if clen(&v) != c {
+                        v.pop();
+                        break;
+                    }
+                }
+            }
+            let ok = fits(&v, is_msg);
+            if !ok {
+                v.clear();
+            }
+            (v, !ok)
+        }
+        Fit::Max => {
+            let full = s.take(MAXP);
+            let (mut lo, mut hi) = (0usize, MAXP);
+            while lo < hi {
+                let mid = (lo + hi + 1) / 2;
+                if fits(&full[..mid], is_msg) {
+                    lo = mid;
+                } else {
+                    hi = mid - 1;
+                }
+            }
+            let mut v = full[..lo].to_vec();
+            let mut extra = 0;
+            while v.len() < MAXP && extra < 32 && clen(&v) < MAXC {
+                v.push(0);
+                extra += 1;
+                if !fits(&v, is_msg) {
+                    v.pop();
+                    break;
+                }
+            }
+            (v, false)
+        }
+    }
+}
+
+fn map_bytes(len: u16, seed: u32) -> Vec<u8> {
+    let spec = PayloadSpec {
+        head: Vec::new(),
+        fill: 2,
+        seed,
+        len: len as u32,
+        fit: Fit::None,
+    };
+    Stream::new(&spec).take(len as usize)
+}
+
+// ---------------------------------------------------------------------------
+// Raw level: write, read back, compare
+
+#[derive(Clone, PartialEq)]
+enum RawOp {
+    Tick(i32, bool),
+    Snapshot(Vec<u8>),
+    Delta(Vec<u8>),
+    Message(Vec<u8>),
+    Unknown,
+}
+
+impl std::fmt::Debug for RawOp {
+    fn fmt(&self, f: &mut std::fmt::Formatter) -> std::fmt::Result {
+        fn short(b: &[u8]) -> String {
+            if b.len() <= 40 {
+                hex(b)
+            } else {
+                format!("{}..{}", hex(&b[..24]), hex(&b[b.len() - 8..]))
+            }
+        }
+        match self {
+            RawOp::Tick(t, k) => write!(f, "Tick({}, keyframe={})", t, k),
+            RawOp::Snapshot(b) => write!(f, "Snapshot(len {}, {})", b.len(), short(b)),
+            RawOp::Delta(b) => write!(f, "SnapshotDelta(len {}, {})", b.len(), short(b)),
+            RawOp::Message(b) => write!(f, "Message(len {}, {})", b.len(), short(b)),
+            RawOp::Unknown => write!(f, "Unknown"),
+        }
+    }
+}
+
+struct NormHeader {
+    net_version: Vec<u8>,
+    map_name: Vec<u8>,
+    timestamp: Vec<u8>,
+    sha256: Option<[u8; 32]>,
+    crc: u32,
+    server: bool,
+    length: i32,
+    map: Vec<u8>,
+}
+
+fn norm_str(v: &[u8], cap: usize) -> Vec<u8> {
+    v.iter().take(cap - 1).map(|&b| if b == 0 { 1 } else { b }).collect()
+}
+
+fn norm_header(h: &HeaderSpec) -> NormHeader {
+    NormHeader {
+        net_version: norm_str(&h.net_version, 64),
+        map_name: norm_str(&h.map_name, 64),
+        timestamp: norm_str(&h.timestamp, 20),
+        sha256: h.sha256,
+        crc: h.crc,
+        server: h.server,
+        length: h.length.max(0),
+        map: map_bytes(h.map_len.min(8192), h.map_seed),
+    }
+}
+
+fn kind(server: bool) -> DemoKind {
+    if server {
+        DemoKind::Server
+    } else {
+        DemoKind::Client
+    }
+}
+
+macro_rules! check_header {
+    ($r:expr, $h:expr) => {{
+        let (r, h) = (&$r, &$h);
+        ensure_eq!(hex(r.net_version()), hex(&h.net_version), "header net_version");
+        ensure_eq!(hex(r.map_name()), hex(&h.map_name), "header map_name");
+        ensure_eq!(hex(r.timestamp()), hex(&h.timestamp), "header timestamp");
+        ensure_eq!(r.map_size() as usize, h.map.len(), "header map_size");
+        ensure!(r.map_data() == &h.map[..], "header map data differs ({} bytes written)", h.map.len());
+        ensure_eq!(r.map_crc(), h.crc, "header map_crc");
+        ensure_eq!(r.length(), h.length, "header length");
+        ensure!(
+            matches!((r.kind(), h.server), (DemoKind::Server, true) | (DemoKind::Client, false)),
+            "header kind: read {:?}, wrote server={}",
+            r.kind(),
+            h.server
+        );
+        ensure_eq!(r.map_sha256().map(|s| hex(&s.0)), h.sha256.map(|s| hex(&s)), "header map_sha256");
+        ensure!(r.timeline_markers().is_empty(), "header timeline markers {:?} although none were written", r.timeline_markers());
+    }};
+}
+
+/// Writes the demo; returns the file and the number of bytes each op appended.
+fn write_raw(h: &NormHeader, ops: &[RawOp], via_chunk_api: bool) -> Result<(Vec<u8>, Vec<usize>), String> {
+    let shared = Shared::new();
+    let file = shared.clone();
+    let mut w = guard_s("Writer::new", || {
+        Writer::new(
+            file,
+            &h.net_version,
+            &h.map_name,
+            h.sha256.map(Sha256),
+            h.crc,
+            kind(h.server),
+            h.length,
+            &h.timestamp,
+            &h.map,
+        )
+    })?
+    .map_err(|e| format!("Writer::new failed: {:?}", e))?;
+    let mut sizes = Vec::with_capacity(ops.len());
+    let mut scratch: Box<ArrayVec<[u8; MAXP]>> = Box::new(ArrayVec::new());
+    for (i, op) in ops.iter().enumerate() {
+        let before = shared.len();
+        let what = format!("writing chunk #{} {:?}", i, op);
+        let r = guard_s(&what, || match op {
+            RawOp::Tick(t, k) => {
+                if via_chunk_api {
+                    w.write_chunk(RawChunk::Tick { tick: *t, keyframe: *k })
+                } else {
+                    w.write_tick(*k, *t)
+                }
+            }
+            RawOp::Snapshot(d) => {
+                if via_chunk_api {
+                    scratch.clear();
+                    scratch.try_extend_from_slice(d).expect("payload <= 64 KiB");
+                    w.write_chunk(RawChunk::Snapshot(&scratch))
+                } else {
+                    w.write_snapshot(d)
+                }
+            }
+            RawOp::Delta(d) => {
+                if via_chunk_api {
+                    scratch.clear();
+                    scratch.try_extend_from_slice(d).expect("payload <= 64 KiB");
+                    w.write_chunk(RawChunk::SnapshotDelta(&scratch))
+                } else {
+                    w.write_snapshot_delta(d)
+                }
+            }
+            RawOp::Message(d) => {
+                if via_chunk_api {
+                    w.write_chunk(RawChunk::Message(d))
+                } else {
+                    w.write_message(d)
+                }
+            }
+            RawOp::Unknown => unreachable!(),
+        })?;
+        if let Err(e) = r {
+            return Err(format!("{}: writer returned {:?}", what, e));
+        }
+        sizes.push(shared.len() - before);
+    }
+    drop(w);
+    Ok((shared.bytes(), sizes))
+}
+
+fn owned(c: RawChunk) -> RawOp {
+    match c {
+        RawChunk::Tick { tick, keyframe } => RawOp::Tick(tick, keyframe),
+        RawChunk::Snapshot(d) => RawOp::Snapshot(d.to_vec()),
+        RawChunk::SnapshotDelta(d) => RawOp::Delta(d.to_vec()),
+        RawChunk::Message(d) => RawOp::Message(d.to_vec()),
+        RawChunk::Unknown => RawOp::Unknown,
+    }
+}
+
+/// Reads the file back and demands header, chunk sequence and silence.
+fn verify_raw(file: &[u8], h: &NormHeader, ops: &[RawOp]) -> Result<(), String> {
+    let mut warn = Warnings::new();
+    let mut r = guard_s("Reader::new", || Reader::new(Cursor::new(file.to_vec()), &mut warn))?
+        .map_err(|e| format!("Reader::new failed on the written demo: {:?}", e))?;
+    ensure!(warn.is_empty(), "warnings while reading the header: {:?}", warn.0);
+    check_header!(r, h);
+    for (i, op) in ops.iter().enumerate() {
+        let expect = match op {
+            RawOp::Message(m) => RawOp::Message(pad4(m)),
+            o => o.clone(),
+        };
+        let got = guard_s(&format!("read_chunk #{}", i), || r.read_chunk(&mut warn).map(|c| c.map(owned)))?;
+        match got {
+            Err(e) => return Err(format!("chunk #{}: reader failed with {:?}, written {:?}", i, e, op)),
+            Ok(None) => return Err(format!("chunk #{}: reader reports end of demo, written {:?} ({} chunks in total)", i, op, ops.len())),
+            Ok(Some(g)) => {
+                ensure!(g == expect, "chunk #{}: read {:?}, expected {:?}", i, g, expect);
+            }
+        }
+        ensure!(warn.is_empty(), "chunk #{} ({:?}): warnings {:?}", i, op, warn.0);
+    }
+    let end = guard_s("read_chunk at the end", || r.read_chunk(&mut warn).map(|c| c.map(owned)))?;
+    match end {
+        Ok(None) => {}
+        Ok(Some(g)) => return Err(format!("reader returned an extra chunk {:?} after the {} written ones", g, ops.len())),
+        Err(e) => return Err(format!("reader failed with {:?} at the end of the demo", e)),
+    }
+    ensure!(warn.is_empty(), "warnings at the end of the demo: {:?}", warn.0);
+    Ok(())
+}
+
+#[derive(Default)]
+struct RawStats {
+    sizes: Vec<usize>,
+    trimmed: u32,
+    ticks_skipped: u32,
+}
+
+fn build_raw_ops(c: &RawCase, stats: &mut RawStats) -> Vec<RawOp> {
+    let mut ops = Vec::new();
+    let mut prev: Option<i32> = None;
+    for ch in &c.chunks {
+        match ch {
+            RChunk::Tick { gap, keyframe } => {
+                let t = match prev {
+                    None => Some(c.start_tick),
+                    Some(p) => {
+                        let n = p as i64 + (*gap).max(1) as i64;
+                        if n <= i32::MAX as i64 {
+                            Some(n as i32)
+                        } else {
+                            None
+                        }
+                    }
+                };
+                match t {
+                    Some(t) => {
+                        prev = Some(t);
+                        ops.push(RawOp::Tick(t, *keyframe));
+                    }
+                    None => stats.ticks_skipped += 1,
+                }
+            }
+            RChunk::Snapshot(p) => {
+                let (d, tr) = expand(p, false);
+                stats.trimmed += tr as u32;
+                ops.push(RawOp::Snapshot(d));
+            }
+            RChunk::Delta(p) => {
+                let (d, tr) = expand(p, false);
+                stats.trimmed += tr as u32;
+                ops.push(RawOp::Delta(d));
+            }
+            RChunk::Message(p) => {
+                let (d, tr) = expand(p, true);
+                stats.trimmed += tr as u32;
+                ops.push(RawOp::Message(d));
+            }
+        }
+    }
+    ops
+}
+
+fn check_raw(c: &RawCase) -> PResult {
+    let h = norm_header(&c.header);
+    let mut stats = RawStats::default();
+    let ops = build_raw_ops(c, &mut stats);
+    let (file, sizes) = write_raw(&h, &ops, c.via_chunk_api)?;
+    verify_raw(&file, &h, &ops)?;
+    stats.sizes = sizes;
+
+    // classification (from the bytes the writer really appended)
+    let mut on_boundary = false;
+    let (mut s29, mut s30, mut s255, mut s256, mut big, mut maxc, mut maxu) = (false, false, false, false, false, false, false);
+    let (mut inline_tick, mut abs_tick, mut keyframe, mut neg_tick) = (false, false, false, false);
+    let (mut empty, mut m1, mut m2, mut m3) = (false, false, false, false);
+    let (mut g31, mut g32) = (false, false);
+    let mut prev_tick: Option<i32> = None;
+    for (op, &sz) in ops.iter().zip(&stats.sizes) {
+        match op {
+            RawOp::Tick(t, k) => {
+                if sz == 1 {
+                    inline_tick = true;
+                } else {
+                    abs_tick = true;
+                }
+                keyframe |= *k;
+                neg_tick |= *t < 0;
+                if let Some(p) = prev_tick {
+                    let gap = *t as i64 - p as i64;
+                    g31 |= gap == 31;
+                    g32 |= gap == 32;
+                }
+                prev_tick = Some(*t);
+            }
+            RawOp::Snapshot(d) | RawOp::Delta(d) | RawOp::Message(d) => {
+                let is_msg = matches!(op, RawOp::Message(_));
+                let cl = predicted_clen(d, is_msg);
+                s29 |= cl == 29;
+                s30 |= cl == 30;
+                s255 |= cl == 255;
+                s256 |= cl == 256;
+                big |= cl > 32768;
+                maxc |= cl == MAXC;
+                maxu |= d.len() == MAXP;
+                empty |= d.is_empty();
+                if is_msg {
+                    m1 |= d.len() % 4 == 1;
+                    m2 |= d.len() % 4 == 2;
+                    m3 |= d.len() % 4 == 3;
+                }
+            }
+            RawOp::Unknown => {}
+        }
+    }
+    on_boundary |= s29 || s30 || s255 || s256;
+    Ok(Outcome::nt(on_boundary)
+        .class_if(s29, "size_29")
+        .class_if(s30, "size_30")
+        .class_if(s255, "size_255")
+        .class_if(s256, "size_256")
+        .class_if(big, "size_over_32k")
+        .class_if(maxc, "size_65535")
+        .class_if(maxu, "payload_65536")
+        .class_if(empty, "empty_payload")
+        .class_if(m1, "msg_len_mod4_1")
+        .class_if(m2, "msg_len_mod4_2")
+        .class_if(m3, "msg_len_mod4_3")
+        .class_if(inline_tick, "tick_inline")
+        .class_if(abs_tick, "tick_absolute")
+        .class_if(keyframe, "tick_keyframe")
+        .class_if(neg_tick, "tick_negative")
+        .class_if(g31, "tick_gap_31")
+        .class_if(g32, "tick_gap_32")
+        .class_if(stats.ticks_skipped > 0, "tick_past_i32_max_skipped")
+        .class_if(stats.trimmed > 0, "payload_cut_to_writer_limit")
+        .class_if(c.via_chunk_api, "via_write_chunk")
+        .class_if(h.sha256.is_some(), "header_sha256")
+        .class_if(h.net_version.len() == 63 || h.map_name.len() == 63 || h.timestamp.len() == 19, "header_string_at_capacity")
+        .class_if(ops.is_empty(), "no_chunks"))
+}
+
+// ---------------------------------------------------------------------------
+// Raw level strategies
+
+fn hstr(cap: usize) -> BoxedStrategy<Vec<u8>> {
+    prop_oneof![
+        2 => Just(cap - 1),
+        1 => Just(0usize),
+        1 => Just(cap - 2),
+        3 => 0..cap,
+    ]
+    .prop_flat_map(|n| proptest::collection::vec(1u8..=255, n))
+    .boxed()
+}
+
+fn header_strategy(max_map: u16) -> BoxedStrategy<HeaderSpec> {
+    (
+        hstr(64),
+        hstr(64),
+        hstr(20),
+        proptest::option::weighted(0.5, any::<[u8; 32]>()),
+        any::<u32>(),
+        any::<bool>(),
+        prop_oneof![2 => Just(0i32), 2 => 0i32..100_000, 1 => Just(i32::MAX), 1 => 0i32..=i32::MAX],
+        prop_oneof![2 => Just(0u16), 3 => 0u16..64, 2 => 0u16..=max_map],
+        any::<u32>(),
+    )
+        .prop_map(|(net_version, map_name, timestamp, sha256, crc, server, length, map_len, map_seed)| HeaderSpec {
+            net_version,
+            map_name,
+            timestamp,
+            sha256,
+            crc,
+            server,
+            length,
+            map_len,
+            map_seed,
+        })
+        .boxed()
+}
+
+fn payload_strategy() -> BoxedStrategy<PayloadSpec> {
+    let len_fit = prop_oneof![
+        3 => (0u32..8).prop_map(|l| (l, Fit::None)),
+        3 => (0u32..80).prop_map(|l| (l, Fit::None)),
+        2 => (0u32..1500).prop_map(|l| (l, Fit::None)),
+        1 => (0u32..50_000).prop_map(|l| (l, Fit::None)),
+        1 => (65_530u32..=65_536).prop_map(|l| (l, Fit::None)),
+        8 => (0u32..4, proptest::sample::select(vec![29u16, 30, 255, 256, 28, 31, 254, 257]))
+            .prop_map(|(l, t)| (l, Fit::Compressed(t))),
+        1 => (0u32..4, 1u16..400).prop_map(|(l, t)| (l, Fit::Compressed(t))),
+        1 => (0u32..4).prop_map(|l| (l, Fit::Max)),
+    ];
+    (proptest::collection::vec(any::<u8>(), 0..12), 0u8..6, any::<u32>(), len_fit)
+        .prop_map(|(head, fill, seed, (len, fit))| PayloadSpec { head, fill, seed, len, fit })
+        .boxed()
+}
+
+fn rchunk_strategy() -> BoxedStrategy<RChunk> {
+    let gap = prop_oneof![
+        5 => proptest::sample::select(vec![1u32, 2, 30, 31, 32, 33, 1000, 1 << 20]),
+        2 => 1u32..70,
+        1 => proptest::sample::select(vec![i32::MAX as u32, 1u32 << 31, u32::MAX]),
+    ];
+    prop_oneof![
+        5 => (gap, proptest::bool::weighted(0.25)).prop_map(|(gap, keyframe)| RChunk::Tick { gap, keyframe }),
+        2 => payload_strategy().prop_map(RChunk::Snapshot),
+        2 => payload_strategy().prop_map(RChunk::Delta),
+        3 => payload_strategy().prop_map(RChunk::Message),
+    ]
+    .boxed()
+}
+
+fn start_tick_strategy() -> BoxedStrategy<i32> {
+    prop_oneof![
+        3 => Just(0i32),
+        2 => 0i32..100_000,
+        1 => (0i32..70).prop_map(|d| i32::MAX - d),
+        1 => proptest::sample::select(vec![-1i32, i32::MIN, -1000, i32::MIN + 31]),
+    ]
+    .boxed()
+}
+
+fn raw_strategy() -> impl Strategy<Value = RawCase> {
+    (
+        header_strategy(4096),
+        start_tick_strategy(),
+        proptest::collection::vec(rchunk_strategy(), 0..14),
+        any::<bool>(),
+    )
+        .prop_map(|(header, start_tick, chunks, via_chunk_api)| RawCase {
+            header,
+            start_tick,
+            chunks,
+            via_chunk_api,
+        })
+}
+
+// ---------------------------------------------------------------------------
+// Raw level deterministic sweeps: every compressed size 1..=300 per chunk kind, every tick gap
+// 1..=70 with/without key frame from several starting ticks, every header string length.
+
+fn plain_header() -> HeaderSpec {
+    HeaderSpec {
+        net_version: b"0.6 626fce9a778df4d4".to_vec(),
+        map_name: b"dm1".to_vec(),
+        timestamp: b"2026-09-23_00-00-00".to_vec(),
+        sha256: None,
+        crc: 0xf2159e6e,
+        server: false,
+        length: 0,
+        map_len: 0,
+        map_seed: 0,
+    }
+}
+
+const SIZE_SWEEP: u64 = 300 * 3 * 2;
+
+fn size_sweep_case(idx: u64) -> (RawCase, usize) {
+    let kind = idx % 3;
+    let fill = if (idx / 3) % 2 == 0 { 2 } else { 3 };
+    let t = (idx / 6 + 1) as u16;
+    let p = PayloadSpec {
+        head: vec![],
+        fill,
+        seed: 0x1234_5678 ^ idx as u32,
+        len: (idx % 4) as u32,
+        fit: Fit::Compressed(t),
+    };
+    let data = match kind {
+        0 => RChunk::Snapshot(p),
+        1 => RChunk::Delta(p),
+        _ => RChunk::Message(p),
+    };
+    (
+        RawCase {
+            header: plain_header(),
+            start_tick: 7,
+            chunks: vec![
+                RChunk::Tick { gap: 1, keyframe: true },
+                data,
+                RChunk::Tick { gap: 1, keyframe: false },
+                RChunk::Message(PayloadSpec { head: vec![1, 2, 3, 4, 5], fill: 0, seed: 0, len: 5, fit: Fit::None }),
+            ],
+            via_chunk_api: idx % 2 == 1,
+        },
+        t as usize,
+    )
+}
+
+fn check_size_sweep(idx: u64) -> Result<bool, String> {
+    let (c, t) = size_sweep_case(idx);
+    let h = norm_header(&c.header);
+    let mut st = RawStats::default();
+    let ops = build_raw_ops(&c, &mut st);
+    let (file, _) = write_raw(&h, &ops, c.via_chunk_api)?;
+    verify_raw(&file, &h, &ops)?;
+    let hit = match &ops[1] {
+        RawOp::Message(d) => predicted_clen(d, true) == t,
+        RawOp::Snapshot(d) | RawOp::Delta(d) => predicted_clen(d, false) == t,
+        _ => false,
+    };
+    Ok(hit)
+}
+
+const TICK_STARTS: [i32; 6] = [0, 1, 12345, -40, i32::MIN, i32::MAX - 70];
+const TICK_SWEEP: u64 = 70 * 2 * 2 * 6;
+
+fn tick_sweep_case(idx: u64) -> RawCase {
+    let gap = (idx % 70 + 1) as u32;
+    let kf = (idx / 70) % 2 == 1;
+    let first_kf = (idx / 140) % 2 == 1;
+    let start = TICK_STARTS[(idx / 280) as usize % 6];
+    let note = PayloadSpec { head: vec![9, 8, 7], fill: 0, seed: 0, len: 3, fit: Fit::None };
+    RawCase {
+        header: plain_header(),
+        start_tick: start,
+        chunks: vec![
+            RChunk::Tick { gap: 1, keyframe: first_kf },
+            RChunk::Snapshot(note.clone()),
+            RChunk::Tick { gap, keyframe: kf },
+            RChunk::Delta(note.clone()),
+            RChunk::Tick { gap: 1, keyframe: false },
+            RChunk::Message(note),
+        ],
+        via_chunk_api: idx % 2 == 0,
+    }
+}
+
+const HEADER_SWEEP: u64 = 64 * 2;
+
+fn header_sweep_case(idx: u64) -> RawCase {
+    let n = (idx % 64) as usize;
+    let mut h = plain_header();
+    h.net_version = (0..n).map(|i| b'a' + (i % 26) as u8).collect();
+    h.map_name = (0..63 - n).map(|i| 0x80 + (i as u8 % 0x7f)).collect();
+    h.timestamp = (0..n % 20).map(|i| b'0' + (i % 10) as u8).collect();
+    h.sha256 = if idx >= 64 { Some([idx as u8; 32]) } else { None };
+    h.server = idx % 2 == 1;
+    h.length = (idx as i32) * 1000;
+    h.crc = 0xdead_0000 | idx as u32;
+    h.map_len = (idx * 37 % 1500) as u16;
+    h.map_seed = idx as u32 + 1;
+    RawCase {
+        header: h,
+        start_tick: 0,
+        chunks: vec![RChunk::Tick { gap: 1, keyframe: true }],
+        via_chunk_api: false,
+    }
+}
+
+fn check_plain_case(c: &RawCase) -> Result<bool, String> {
+    let h = norm_header(&c.header);
+    let mut st = RawStats::default();
+    let ops = build_raw_ops(c, &mut st);
+    let (file, _) = write_raw(&h, &ops, c.via_chunk_api)?;
+    verify_raw(&file, &h, &ops)?;
+    Ok(true)
+}
+
+// ---------------------------------------------------------------------------
+// Typed level: object types, messages
+
+/// (type id, number of words) of every ddnet snap object type that the harness can build by
+/// decoding words. `DdnetSpectatorInfo` has a boolean member (C14 finding: its `encode()` is not
+/// its wire form) and is left out.
+fn type_table() -> &'static Vec<(TypeId, usize)> {
+    static T: OnceLock<Vec<(TypeId, usize)>> = OnceLock::new();
+    T.get_or_init(|| {
+        let mut cands: Vec<TypeId> = (1u16..=20).map(TypeId::Ordinal).collect();
+        for u in [
+            snap_obj::MY_OWN_OBJECT,
+            snap_obj::DDNET_CHARACTER,
+            snap_obj::DDNET_PLAYER,
+            snap_obj::GAME_INFO_EX,
+            snap_obj::DDRACE_PROJECTILE,
+            snap_obj::DDNET_LASER,
+            snap_obj::DDNET_PROJECTILE,
+            snap_obj::DDNET_PICKUP,
+            snap_obj::SPECTATOR_COUNT,
+            snap_obj::BIRTHDAY,
+            snap_obj::FINISH,
+            snap_obj::MY_OWN_EVENT,
+            snap_obj::SPEC_CHAR,
+            snap_obj::SWITCH_STATE,
+            snap_obj::ENTITY_EX,
+            snap_obj::MAP_SOUND_WORLD,
+        ] {
+            cands.push(TypeId::Uuid(u));
+        }
+        let mut out = Vec::new();
+        for t in cands {
+            for n in 0..=64usize {
+                let zeros = vec![0i32; n];
+                let mut w = Warnings::new();
+                if SnapObj::decode_obj(&mut w, t, &mut IntUnpacker::new(&zeros)).is_ok() {
+                    if w.is_empty() {
+                        out.push((t, n));
+                    }
+                    break;
+                }
+            }
+        }
+        out
+    })
+}
+
+fn decode_words(t: TypeId, words: &[i32]) -> Option<SnapObj> {
+    let mut w = Warnings::new();
+    let r = SnapObj::decode_obj(&mut w, t, &mut IntUnpacker::new(words)).ok();
+    if w.is_empty() {
+        r
+    } else {
+        None
+    }
+}
+
+/// Turns arbitrary generated words into words that the type's decoder accepts (field by field:
+/// the generated value if in range, else a reduced one, else 0).
+fn fit_words(t: TypeId, n: usize, raw: &[i32]) -> Vec<i32> {
+    let mut words = vec![0i32; n];
+    for i in 0..n {
+        let v = raw.get(i).copied().unwrap_or(0);
+        for cand in [v, v & 0x7f, v & 7, v & 3, v & 1] {
+            if cand == 0 {
+                break;
+            }
+            words[i] = cand;
+            if decode_words(t, &words).is_some() {
+                break;
+            }
+            words[i] = 0;
+        }
+    }
+    words
+}
+
+#[derive(Clone, Copy)]
+enum F {
+    I(i32, i32),
+    S,
+}
+#[derive(Clone, Copy)]
+enum MId {
+    O(i32),
+    U(uuid::Uuid),
+}
+const ANY: F = F::I(i32::MIN, i32::MAX);
+
+static MSGS: &[(MId, &[F])] = &[
+    (MId::O(gmsg::SV_MOTD), &[F::S]),
+    (MId::O(gmsg::SV_BROADCAST), &[F::S]),
+    (MId::O(gmsg::SV_CHAT), &[F::I(-2, 3), F::I(-1, 127), F::S]),
+    (MId::O(gmsg::SV_KILL_MSG), &[F::I(0, 127), F::I(0, 127), F::I(-3, 5), ANY]),
+    (MId::O(gmsg::SV_READY_TO_ENTER), &[]),
+    (MId::O(gmsg::SV_VOTE_SET), &[F::I(0, i32::MAX), F::S, F::S]),
+    (MId::O(gmsg::SV_VOTE_STATUS), &[F::I(0, 128); 4]),
+    (MId::O(gmsg::CL_SAY), &[F::I(0, 1), F::S]),
+    (MId::O(gmsg::CL_KILL), &[]),
+    (MId::O(gmsg::CL_CALL_VOTE), &[F::S, F::S, F::S]),
+    (MId::U(gmsg::SV_MY_OWN_MESSAGE), &[ANY]),
+    (MId::U(gmsg::CL_SHOW_DISTANCE), &[ANY, ANY]),
+    (MId::U(gmsg::SV_RACE_FINISH), &[F::I(0, 127), ANY, ANY, F::I(0, 1), F::I(0, 1)]),
+    (MId::U(gmsg::SV_DDRACE_TIME), &[ANY, ANY, F::I(0, 1)]),
+    (MId::U(gmsg::SV_TEAMS_STATE), &[F::I(0, 128); 128]),
+];
+
+#[derive(Clone, Debug, Hash, Serialize, Deserialize)]
+pub struct MsgSpec {
+    pub kind: u16,
+    pub ints: Vec<i32>,
+    pub strs: Vec<Vec<u8>>,
+}
+
+fn into_range(v: i32, lo: i32, hi: i32) -> i32 {
+    if lo <= v && v <= hi {
+        v
+    } else {
+        let span = hi as i64 - lo as i64 + 1;
+        (lo as i64 + (v as i64 - lo as i64).rem_euclid(span)) as i32
+    }
+}
+
+fn msg_bytes(m: &MsgSpec) -> Vec<u8> {
+    let (id, fields) = MSGS[pick(m.kind, MSGS.len())];
+    let mut out = Vec::new();
+    match id {
+        MId::O(n) => varint(n << 1, &mut out),
+        MId::U(u) => {
+            varint(0, &mut out);
+            out.extend_from_slice(u.as_bytes());
+        }
+    }
+    let (mut ii, mut si) = (0, 0);
+    for f in fields {
+        match *f {
+            F::I(lo, hi) => {
+                let v = m.ints.get(ii).copied().unwrap_or(0);
+                ii += 1;
+                varint(into_range(v, lo, hi), &mut out);
+            }
+            F::S => {
+                let s = m.strs.get(si).map(|s| &s[..]).unwrap_or(b"");
+                si += 1;
+                out.extend(s.iter().map(|&b| if b < 0x20 { b + 0x20 } else { b }));
+                out.push(0);
+            }
+        }
+    }
+    out
+}
+
+fn encode_game(g: &Game) -> Result<Vec<u8>, String> {
+    let mut buf: Vec<u8> = Vec::with_capacity(8192);
+    let n = with_packer(&mut buf, |p| g.encode(p).map(|s| s.len())).map_err(|_| "harness: message does not fit 8 KiB".to_string())?;
+    ensure_eq!(n, buf.len(), "harness: packer length");
+    Ok(buf)
+}
+
+#[derive(Clone, Debug, Hash, Serialize, Deserialize)]
+pub struct ObjSpec {
+    pub ty: u16,
+    pub id: u16,
+    pub words: Vec<i32>,
+}
+
+#[derive(Clone, Debug, Hash, Serialize, Deserialize)]
+pub enum Change {
+    Add(ObjSpec),
+    Modify { which: u16, word: u8, value: i32 },
+    Remove { which: u16 },
+    Clear,
+}
+
+#[derive(Clone, Debug, Hash, Serialize, Deserialize)]
+pub enum TOp {
+    /// advance the tick by `gap`, apply the changes to the world, write the world
+    Snap { gap: u16, changes: Vec<Change> },
+    Msg(MsgSpec),
+    /// write_snap with `last tick - back`: must be refused
+    BadTick { back: u16 },
+    /// write_snap with a valid tick but the same (type, id) twice: refused by the snapshot builder
+    DupSnap { gap: u16 },
+}
+
+#[derive(Clone, Debug, Hash, Serialize, Deserialize)]
+pub struct TypedCase {
+    pub header: HeaderSpec,
+    pub start_tick: i32,
+    pub ops: Vec<TOp>,
+}
+
+type Item = (TypeId, u16, Vec<i32>);
+
+#[derive(Clone, PartialEq)]
+enum TExp {
+    Tick(i32),
+    Snap(Vec<Item>),
+    Msg(Vec<u8>),
+    Invalid,
+}
+
+impl std::fmt::Debug for TExp {
+    fn fmt(&self, f: &mut std::fmt::Formatter) -> std::fmt::Result {
+        match self {
+            TExp::Tick(t) => write!(f, "Tick({})", t),
+            TExp::Snap(items) => {
+                write!(f, "Snapshot{{")?;
+                for (t, id, w) in items {
+                    write!(f, " ({:?},{}):{:?}", t, id, w)?;
+                }
+                write!(f, " }}")
+            }
+            TExp::Msg(b) => write!(f, "Message({})", hex(b)),
+            TExp::Invalid => write!(f, "Invalid"),
+        }
+    }
+}
+
+type World = BTreeMap<(u16, u16), Vec<i32>>;
+
+fn world_items(world: &World) -> Vec<Item> {
+    let tt = type_table();
+    let mut v: Vec<Item> = world.iter().map(|(&(ty, id), w)| (tt[ty as usize].0, id, w.clone())).collect();
+    v.sort();
+    v
+}
+
+fn world_objs(world: &World, reverse: bool) -> Result<Vec<(SnapObj, u16)>, String> {
+    let tt = type_table();
+    let mut v = Vec::with_capacity(world.len());
+    for (&(ty, id), w) in world {
+        let o = decode_words(tt[ty as usize].0, w).ok_or_else(|| format!("harness: words {:?} of type {:?} do not decode", w, tt[ty as usize].0))?;
+        v.push((o, id));
+    }
+    if reverse {
+        v.reverse();
+    }
+    Ok(v)
+}
+
+/// Index of a UUID object type of two words (used instead of UUID types of other sizes while the
+/// finding KEY_UUID_IDS is open, so that a reused extended type id never changes the item size).
+fn two_word_uuid_type(sel: usize) -> Option<usize> {
+    let tt = type_table();
+    let c: Vec<usize> = (0..tt.len()).filter(|&i| matches!(tt[i].0, TypeId::Uuid(_)) && tt[i].1 == 2).collect();
+    if c.is_empty() {
+        None
+    } else {
+        Some(c[sel % c.len()])
+    }
+}
+
+fn apply_changes(world: &mut World, changes: &[Change], cfg: &TypedCfg, flags: &mut TFlags) {
+    let tt = type_table();
+    for ch in changes {
+        match ch {
+            Change::Add(o) => {
+                if world.len() >= 64 {
+                    continue;
+                }
+                let mut ty = pick(o.ty, tt.len());
+                if cfg.same_size_uuid && matches!(tt[ty].0, TypeId::Uuid(_)) && tt[ty].1 != 2 {
+                    flags.excluded_uuid += 1;
+                    match two_word_uuid_type(ty) {
+                        Some(t) => ty = t,
+                        None => continue,
+                    }
+                }
+                let (t, n) = tt[ty];
+                let words = fit_words(t, n, &o.words);
+                flags.uuid_obj |= matches!(t, TypeId::Uuid(_));
+                if world.insert((ty as u16, o.id), words).is_some() {
+                    flags.changed = true;
+                }
+            }
+            Change::Modify { which, word, value } => {
+                if world.is_empty() {
+                    continue;
+                }
+                let key = *world.keys().nth(pick(*which, world.len())).unwrap();
+                let (t, n) = tt[key.0 as usize];
+                if n == 0 {
+                    continue;
+                }
+                let mut raw = world[&key].clone();
+                raw[*word as usize % n] = *value;
+                let words = fit_words(t, n, &raw);
+                if words != world[&key] {
+                    flags.changed = true;
+                }
+                world.insert(key, words);
+            }
+            Change::Remove { which } => {
+                if world.is_empty() {
+                    continue;
+                }
+                let key = *world.keys().nth(pick(*which, world.len())).unwrap();
+                world.remove(&key);
+                flags.vanished = true;
+            }
+            Change::Clear => {
+                flags.vanished |= !world.is_empty();
+                world.clear();
+            }
+        }
+    }
+}
+
+#[derive(Default)]
+struct TFlags {
+    uuid_obj: bool,
+    changed: bool,
+    vanished: bool,
+    refused_lower: bool,
+    refused_equal: bool,
+    snap_after_refusal: bool,
+    dup_refused: bool,
+    snap_after_dup: bool,
+    empty_snap: bool,
+    msg_rejected_by_decoder: bool,
+    msg_unaligned: bool,
+    msgs: u32,
+    snaps: u32,
+    excluded_equal: u32,
+    excluded_dup: u32,
+    excluded_uuid: u32,
+}
+
+struct TypedCfg {
+    skip_equal: bool,
+    skip_dup: bool,
+    same_size_uuid: bool,
+}
+
+fn is_too_low(e: &libtw2_demo::ddnet::WriteError) -> bool {
+    matches!(e, libtw2_demo::ddnet::WriteError::TooLowTickNumber)
+}
+
+fn write_typed(c: &TypedCase, h: &NormHeader, cfg: &TypedCfg, flags: &mut TFlags) -> Result<(Vec<u8>, Vec<TExp>), String> {
+    let shared = Shared::new();
+    let file = shared.clone();
+    let mut w: DemoWriter<Protocol> = guard_s("DemoWriter::new", || {
+        DemoWriter::new(
+            file,
+            &h.net_version,
+            &h.map_name,
+            h.sha256.map(Sha256),
+            h.crc,
+            kind(h.server),
+            h.length,
+            &h.timestamp,
+            &h.map,
+        )
+    })?
+    .map_err(|e| format!("DemoWriter::new failed: {:?}", e))?;
+    let mut world = World::new();
+    let mut last: Option<i32> = None;
+    let mut expect: Vec<TExp> = Vec::new();
+    let mut pending_refusal = false;
+    let mut pending_dup = false;
+    let next_tick = |last: Option<i32>, gap: u16| -> Option<i32> {
+        match last {
+            None => Some(c.start_tick.max(0)),
+            Some(l) => l.checked_add(gap.max(1) as i32),
+        }
+    };
+    for (i, op) in c.ops.iter().enumerate() {
+        match op {
+            TOp::Snap { gap, changes } => {
+                let Some(tick) = next_tick(last, *gap) else { continue };
+                apply_changes(&mut world, changes, cfg, flags);
+                let objs = world_objs(&world, tick % 2 == 1)?;
+                let r = guard_s(&format!("op #{}: write_snap(tick {}, {} objects)", i, tick, objs.len()), || {
+                    w.write_snap(tick, objs.iter().map(|(o, id)| (o, *id)))
+                })?;
+                if let Err(e) = r {
+                    return Err(format!("op #{}: write_snap(tick {} after {:?}, {} objects) failed: {:?}", i, tick, last, objs.len(), e));
+                }
+                last = Some(tick);
+                expect.push(TExp::Tick(tick));
+                expect.push(TExp::Snap(world_items(&world)));
+                flags.snaps += 1;
+                flags.empty_snap |= world.is_empty();
+                flags.snap_after_refusal |= pending_refusal;
+                flags.snap_after_dup |= pending_dup;
+                pending_refusal = false;
+                pending_dup = false;
+            }
+            TOp::Msg(m) => {
+                let bytes = msg_bytes(m);
+                let mut mw = Warnings::new();
+                let game = match Game::decode(&mut mw, &mut Unpacker::new(&bytes)) {
+                    Ok(g) if mw.is_empty() => g,
+                    _ => {
+                        flags.msg_rejected_by_decoder = true;
+                        continue;
+                    }
+                };
+                let canon = encode_game(&game)?;
+                let r = guard_s(&format!("op #{}: write_msg({:?})", i, game), || w.write_msg(&game))?;
+                if let Err(e) = r {
+                    return Err(format!("op #{}: write_msg({:?}) failed: {:?}", i, game, e));
+                }
+                flags.msg_unaligned |= canon.len() % 4 != 0;
+                flags.msgs += 1;
+                expect.push(TExp::Msg(canon));
+            }
+            TOp::BadTick { back } => {
+                let Some(l) = last else { continue };
+                if *back == 0 && cfg.skip_equal {
+                    flags.excluded_equal += 1;
+                    continue;
+                }
+                let tick = (l as i64 - *back as i64).max(i32::MIN as i64) as i32;
+                let objs = world_objs(&world, false)?;
+                let r = guard_s(&format!("op #{}: write_snap(tick {}) after tick {}", i, tick, l), || {
+                    w.write_snap(tick, objs.iter().map(|(o, id)| (o, *id)))
+                })?;
+                match r {
+                    Err(ref e) if is_too_low(e) => {}
+                    Err(e) => return Err(format!("op #{}: write_snap(tick {}) after tick {} failed with {:?} instead of TooLowTickNumber", i, tick, l, e)),
+                    Ok(()) => return Err(format!("op #{}: write_snap(tick {}) after tick {} was accepted although the tick does not increase", i, tick, l)),
+                }
+                if *back == 0 {
+                    flags.refused_equal = true;
+                } else {
+                    flags.refused_lower = true;
+                }
+                pending_refusal = true;
+            }
+            TOp::DupSnap { gap } => {
+                if cfg.skip_dup {
+                    flags.excluded_dup += 1;
+                    continue;
+                }
+                let Some(tick) = next_tick(last, *gap) else { continue };
+                let mut objs = world_objs(&world, false)?;
+                if objs.is_empty() {
+                    let (t, n) = type_table()[0];
+                    let o = decode_words(t, &vec![0; n]).ok_or("harness: zero object")?;
+                    objs.push((o, 0));
+                }
+                let dup = objs[objs.len() / 2];
+                objs.push(dup);
+                let r = guard_s(&format!("op #{}: write_snap(tick {}) with a duplicate (type, id)", i, tick), || {
+                    w.write_snap(tick, objs.iter().map(|(o, id)| (o, *id)))
+                })?;
+                match r {
+                    Err(libtw2_demo::ddnet::WriteError::SnapBuilder(_)) => {}
+                    Err(e) => return Err(format!("op #{}: write_snap with a duplicate (type, id) failed with {:?}", i, e)),
+                    Ok(()) => return Err(format!("op #{}: write_snap accepted the same (type, id) twice", i)),
+                }
+                flags.dup_refused = true;
+                pending_dup = true;
+            }
+        }
+    }
+    drop(w);
+    Ok((shared.bytes(), expect))
+}
+
+fn read_typed(file: &[u8], h: &NormHeader, expect: &[TExp]) -> Result<(), String> {
+    let mut warn = Warnings::new();
+    let mut r: DemoReader<Protocol> = guard_s("DemoReader::new", || DemoReader::new(Cursor::new(file.to_vec()), &mut warn))?
+        .map_err(|e| format!("DemoReader::new failed on the written demo: {:?}", e))?;
+    ensure!(warn.is_empty(), "warnings while reading the header: {:?}", warn.0);
+    check_header!(r, h);
+    for i in 0..=expect.len() {
+        let got = guard_s(&format!("next_chunk #{}", i), || -> Result<Option<TExp>, String> {
+            match r.next_chunk(&mut warn) {
+                Err(e) => Err(format!("{:?}", e)),
+                Ok(None) => Ok(None),
+                Ok(Some(Chunk::Tick(t))) => Ok(Some(TExp::Tick(t))),
+                Ok(Some(Chunk::Invalid)) => Ok(Some(TExp::Invalid)),
+                Ok(Some(Chunk::Message(g))) => Ok(Some(TExp::Msg(encode_game(&g)?))),
+                Ok(Some(Chunk::Snapshot(it))) => {
+                    let mut v: Vec<Item> = it.map(|(o, id)| (o.obj_type_id(), *id, o.encode().to_vec())).collect();
+                    v.sort();
+                    Ok(Some(TExp::Snap(v)))
+                }
+            }
+        })?;
+        let want = expect.get(i);
+        match (got, want) {
+            (Err(e), _) => return Err(format!("chunk #{}: reader failed with {}, expected {:?}", i, e, want)),
+            (Ok(None), None) => {}
+            (Ok(None), Some(x)) => return Err(format!("chunk #{}: reader reports end of demo, expected {:?}", i, x)),
+            (Ok(Some(g)), None) => return Err(format!("reader returned an extra chunk {:?} after the {} expected ones", g, expect.len())),
+            (Ok(Some(g)), Some(x)) => {
+                if g != *x {
+                    if let (TExp::Snap(a), TExp::Snap(b)) = (&g, x) {
+                        let extra: Vec<&Item> = a.iter().filter(|i| !b.contains(i)).collect();
+                        let missing: Vec<&Item> = b.iter().filter(|i| !a.contains(i)).collect();
+                        return Err(format!(
+                            "chunk #{}: object set differs: reported but not written {:?}; written but not reported {:?} ({} written, {} reported)",
+                            i,
+                            extra,
+                            missing,
+                            b.len(),
+                            a.len()
+                        ));
+                    }
+                    return Err(format!("chunk #{}: read {:?}, expected {:?}", i, g, x));
+                }
+            }
+        }
+        ensure!(warn.is_empty(), "chunk #{} ({:?}): warnings {:?}", i, want, warn.0);
+    }
+    Ok(())
+}
+
+/// Raw view of a typed demo: (key-frame snapshots, delta snapshots, delta seen after a key frame).
+fn raw_view(file: &[u8]) -> Result<(u32, u32, bool), String> {
+    let mut warn = Warnings::new();
+    let mut r = Reader::new(Cursor::new(file.to_vec()), &mut warn).map_err(|e| format!("Reader::new on a typed demo: {:?}", e))?;
+    let (mut full, mut delta, mut delta_after_full) = (0, 0, false);
+    for _ in 0..1_000_000 {
+        match r.read_chunk(&mut warn) {
+            Err(e) => return Err(format!("raw reader failed on a typed demo: {:?}", e)),
+            Ok(None) => break,
+            Ok(Some(RawChunk::Snapshot(_))) => full += 1,
+            Ok(Some(RawChunk::SnapshotDelta(_))) => {
+                delta += 1;
+                delta_after_full |= full > 0;
+            }
+            Ok(Some(_)) => {}
+        }
+    }
+    ensure!(warn.is_empty(), "raw reader warned on a typed demo: {:?}", warn.0);
+    Ok((full, delta, delta_after_full))
+}
+
+fn check_typed(c: &TypedCase, cfg: &TypedCfg, excluded: &AtomicU64) -> PResult {
+    let h = norm_header(&c.header);
+    let mut f = TFlags::default();
+    let (file, expect) = write_typed(c, &h, cfg, &mut f)?;
+    excluded.fetch_add((f.excluded_equal + f.excluded_dup + f.excluded_uuid) as u64, Ordering::Relaxed);
+    read_typed(&file, &h, &expect)?;
+    let (full, delta, delta_after_full) = raw_view(&file)?;
+    ensure_eq!(full + delta, f.snaps, "number of snapshot chunks in the file vs. accepted write_snap calls");
+    Ok(Outcome::nt(delta_after_full && f.msg_unaligned)
+        .class_if(delta_after_full, "delta_after_keyframe")
+        .class_if(full >= 2, "second_keyframe_interval")
+        .class_if(full >= 2 && delta >= 2 && (f.changed || f.vanished), "world_changes_across_keyframes")
+        .class_if(f.uuid_obj, "uuid_object_type")
+        .class_if(f.changed, "object_changed")
+        .class_if(f.vanished, "object_vanished")
+        .class_if(f.empty_snap, "empty_world_snap")
+        .class_if(f.msgs > 0, "has_message")
+        .class_if(f.msg_unaligned, "message_len_not_multiple_of_4")
+        .class_if(f.refused_lower, "lower_tick_refused")
+        .class_if(f.refused_equal, "equal_tick_refused")
+        .class_if(f.snap_after_refusal, "snap_after_tick_refusal")
+        .class_if(f.dup_refused, "duplicate_key_refused")
+        .class_if(f.snap_after_dup, "snap_after_duplicate_refusal")
+        .class_if(f.msg_rejected_by_decoder, "harness_msg_spec_rejected")
+        .class_if(f.excluded_equal > 0, "excluded_known_equal_tick")
+        .class_if(f.excluded_dup > 0, "excluded_known_dup_leak")
+        .class_if(f.excluded_uuid > 0, "excluded_known_uuid_type_size"))
+}
+
+// ---------------------------------------------------------------------------
+// Typed level strategies
+
+fn word_strategy() -> BoxedStrategy<i32> {
+    prop_oneof![
+        4 => -3i32..=10,
+        2 => 0i32..=256,
+        2 => any::<i32>(),
+        1 => (0u32..31, any::<bool>(), -1i32..=1).prop_map(|(s, neg, d)| {
+            let b = ((1i64 << s) + d as i64) as i32;
+            if neg { b.wrapping_neg() } else { b }
+        }),
+        1 => proptest::sample::select(vec![i32::MIN, i32::MAX, -1, 0]),
+    ]
+    .boxed()
+}
+
+fn id_strategy() -> BoxedStrategy<u16> {
+    prop_oneof![4 => 0u16..6, 2 => 0u16..64, 1 => any::<u16>(), 1 => Just(u16::MAX)].boxed()
+}
+
+fn change_strategy() -> BoxedStrategy<Change> {
+    prop_oneof![
+        5 => (any::<u16>(), id_strategy(), proptest::collection::vec(word_strategy(), 0..23))
+            .prop_map(|(ty, id, words)| Change::Add(ObjSpec { ty, id, words })),
+        4 => (any::<u16>(), 0u8..22, word_strategy()).prop_map(|(which, word, value)| Change::Modify { which, word, value }),
+        2 => any::<u16>().prop_map(|which| Change::Remove { which }),
+        1 => Just(Change::Clear),
+    ]
+    .boxed()
+}
+
+fn text_strategy() -> BoxedStrategy<Vec<u8>> {
+    prop_oneof![
+        3 => proptest::collection::vec(0x20u8..=0x7e, 0..12),
+        2 => proptest::collection::vec(0x20u8..=0xff, 0..40),
+        1 => proptest::collection::vec(0x20u8..=0xff, 200..300),
+    ]
+    .boxed()
+}
+
+fn msg_strategy() -> BoxedStrategy<MsgSpec> {
+    (any::<u16>(), proptest::collection::vec(word_strategy(), 0..6), proptest::collection::vec(text_strategy(), 0..3))
+        .prop_map(|(kind, ints, strs)| MsgSpec { kind, ints, strs })
+        .boxed()
+}
+
+fn snap_gap_strategy() -> BoxedStrategy<u16> {
+    prop_oneof![
+        6 => Just(1u16),
+        2 => 2u16..6,
+        1 => 30u16..35,
+        2 => 60u16..130,
+        2 => 249u16..=252,
+        1 => Just(1000u16),
+    ]
+    .boxed()
+}
+
+fn top_strategy() -> BoxedStrategy<TOp> {
+    prop_oneof![
+        12 => (snap_gap_strategy(), proptest::collection::vec(change_strategy(), 0..5)).prop_map(|(gap, changes)| TOp::Snap { gap, changes }),
+        5 => msg_strategy().prop_map(TOp::Msg),
+        2 => prop_oneof![2 => Just(0u16), 2 => 1u16..4, 1 => any::<u16>()].prop_map(|back| TOp::BadTick { back }),
+        1 => snap_gap_strategy().prop_map(|gap| TOp::DupSnap { gap }),
+    ]
+    .boxed()
+}
+
+fn typed_strategy() -> impl Strategy<Value = TypedCase> {
+    (
+        header_strategy(256),
+        prop_oneof![3 => Just(0i32), 2 => 0i32..100_000, 1 => (0i32..2000).prop_map(|d| i32::MAX - d)],
+        prop_oneof![3 => proptest::collection::vec(top_strategy(), 1..30), 1 => proptest::collection::vec(top_strategy(), 30..90)],
+    )
+        .prop_map(|(header, start_tick, ops)| TypedCase { header, start_tick, ops })
+}
+
+// ---------------------------------------------------------------------------
+// Probes
+
+fn tiny_typed(ops: Vec<TOp>) -> TypedCase {
+    TypedCase {
+        header: plain_header(),
+        start_tick: 5,
+        ops,
+    }
+}
+
+fn add(ty: u16, id: u16, words: Vec<i32>) -> Change {
+    Change::Add(ObjSpec { ty, id, words })
+}
+
+fn run_probe(case: &TypedCase) -> Result<(), String> {
+    let cfg = TypedCfg { skip_equal: false, skip_dup: false, same_size_uuid: false };
+    check_typed(case, &cfg, &AtomicU64::new(0)).map(|_| ())
+}
+
+// ---------------------------------------------------------------------------
+
+pub fn run(ctx: &Ctx) {
+    ctx.set_rule(
+        "raw: generated header (strings of every length up to capacity-1, optional sha256, map 0..4 KiB) + 0..13 chunks (ticks with gaps \
+         around the inline limit 31/32 from starts incl. negative and near i32::MAX, key-frame flags; snapshot/delta/message payloads from \
+         6 byte patterns, empty, up to 64 KiB, or grown until the compressed size is exactly 28..31/254..257 or the maximum) written via \
+         write_chunk or the specific methods, read back (non-trivial = a payload whose compressed size is 29, 30, 255 or 256; distinct by case hash); \
+         sweeps: every compressed size 1..=300 x 3 chunk kinds x 2 patterns, every tick gap 1..=70 x keyframe x 6 starts, every header string length; \
+         typed: 1..89 ops over a world of <= 64 ddnet objects of 36 types (words fitted to each type's decoder), gaps crossing the 250-tick key-frame \
+         interval, 15 game message kinds, refused ticks (equal / lower) and refused duplicate keys followed by further snaps \
+         (non-trivial = a delta snapshot after a key frame and a message whose length is not a multiple of four)",
+    );
+    ctx.assume("Huffman::compressed_len (C07) predicts the size on disk; it is used only to aim payloads at size boundaries, to stay inside what the writer accepts (compressed <= 65535) and to label classes");
+    ctx.assume("typed objects are obtained through SnapObj::decode_obj and compared through SnapObj::encode (C14 covers that pair); DdnetSpectatorInfo (boolean member) is left out");
+    ctx.assume("header: strings without NUL, length >= 0 (the reader asserts both); typed ticks >= 0");
+    ctx.extra("typed_object_types", json!(type_table().len()));
+    ctx.extra("typed_message_kinds", json!(MSGS.len()));
+
+    // --- known / suspected findings: canonical probes
+    ctx.probe(KEY_EQUAL_TICK, || {
+        run_probe(&tiny_typed(vec![
+            TOp::Snap { gap: 1, changes: vec![add(0, 1, vec![1, 2, 3])] },
+            TOp::BadTick { back: 0 },
+            TOp::Snap { gap: 1, changes: vec![] },
+        ]))
+    });
+    ctx.probe(KEY_DUP_LEAK, || {
+        run_probe(&tiny_typed(vec![
+            TOp::Snap { gap: 1, changes: vec![add(0, 1, vec![1, 2, 3])] },
+            TOp::DupSnap { gap: 1 },
+            TOp::Snap { gap: 1, changes: vec![Change::Clear] },
+        ]))
+    });
+
+    ctx.probe(KEY_UUID_IDS, || {
+        // an object of one UUID type is replaced by an object of another UUID type (different size)
+        let tt = type_table();
+        let a = (0..tt.len()).find(|&i| matches!(tt[i].0, TypeId::Uuid(_)) && tt[i].1 == 1).ok_or("harness: no 1-word uuid type")?;
+        let b = two_word_uuid_type(0).ok_or("harness: no 2-word uuid type")?;
+        let ty = |i: usize| (((i as u32) << 16) / tt.len() as u32 + 1) as u16;
+        if pick(ty(a), tt.len()) != a || pick(ty(b), tt.len()) != b {
+            return Err("harness: type index mapping".into());
+        }
+        run_probe(&tiny_typed(vec![
+            TOp::Snap { gap: 1, changes: vec![add(ty(a), 0, vec![7])] },
+            TOp::Snap { gap: 1, changes: vec![Change::Clear, add(ty(b), 0, vec![1, 2])] },
+            TOp::Snap { gap: 1, changes: vec![] },
+        ]))
+    });
+
+    // --- raw level
+    ctx.sweep(
+        "raw_size_sweep",
+        SIZE_SWEEP,
+        false,
+        check_size_sweep,
+        |i| serde_json::to_value(size_sweep_case(i).0).unwrap_or(json!(null)),
+    );
+    ctx.sweep(
+        "raw_tick_sweep",
+        TICK_SWEEP,
+        false,
+        |i| check_plain_case(&tick_sweep_case(i)),
+        |i| serde_json::to_value(tick_sweep_case(i)).unwrap_or(json!(null)),
+    );
+    ctx.sweep(
+        "raw_header_sweep",
+        HEADER_SWEEP,
+        false,
+        |i| check_plain_case(&header_sweep_case(i)),
+        |i| serde_json::to_value(header_sweep_case(i)).unwrap_or(json!(null)),
+    );
+    ctx.prop("raw_roundtrip", ctx.n(10_000, 200_000), raw_strategy, check_raw);
+
+    // --- typed level
+    let cfg = TypedCfg {
+        skip_equal: ctx.known_open(KEY_EQUAL_TICK),
+        skip_dup: ctx.known_open(KEY_DUP_LEAK),
+        same_size_uuid: ctx.known_open(KEY_UUID_IDS),
+    };
+    let excluded = AtomicU64::new(0);
+    ctx.prop("typed_roundtrip", ctx.n(4000, 40_000), typed_strategy, |c: &TypedCase| check_typed(c, &cfg, &excluded));
+    ctx.add_excluded_known(excluded.load(Ordering::Relaxed));
 }
